@@ -69,6 +69,15 @@ def run(chk):
         m["ang"], m["st"], m["d"] = ang, st, d
         if st != "ok":
             chk.violation("distance_to_surface-raised", dict(vertices=m["V"].tolist(), radius=m["r"], error=st)); continue
+        # the same angles in other input forms (python list, one-element array, integer array) give the same distances
+        for form, arg, sel in (("list", [float(x) for x in ang[:5]], slice(0, 5)), ("single-element array", ang[3:4].copy(), slice(3, 4)),
+                               ("integer array", np.array([-7, 0, 1, 2, 9]), None)):
+            st2, d2 = C.excname(lambda: np.asarray(m["sh"].distance_to_surface(arg), float).ravel())
+            ref = d[sel] if sel is not None else np.asarray(m["sh"].distance_to_surface(np.array([-7.0, 0.0, 1.0, 2.0, 9.0])), float)
+            if st2 != "ok" or d2.shape != ref.shape or not np.allclose(d2, ref, rtol=1e-12, atol=0):
+                chk.violation("distance_to_surface-input-form", dict(vertices=m["V"].tolist(), radius=m["r"], form=form, outcome=st2,
+                                                                     got=None if st2 != "ok" else d2.tolist(), expected=np.asarray(ref).tolist()))
+                break
         pts = cen[:2] + d[:, None] * np.stack([np.cos(ang), np.sin(ang)], 1)
         m["pts"] = pts
         m["j"] = len(cases2)
